@@ -17,6 +17,22 @@ fn eval(space: &LayoutSpace, index: usize, ps: usize, want_text: bool) -> Outcom
     let case = space.get(index, ps as u64);
     let input = to_input(&space.modules_for(&case.ty));
     let v = pipe::run_with(&input, ps, false);
+    // the verdict must not depend on the order in which the attributes are written
+    let n_attrs = Printer::default().type_attrs(&case.ty).len();
+    if n_attrs >= 2 {
+        let mods = space.modules_for(&case.ty);
+        let rev = pipe::Input { modules: mods.iter().map(|m| (m.path.clone(), Printer { style: NumStyle::Dec, reverse_type_attrs: true, docs_after_attrs: false }.module(m))).collect() };
+        let v2 = pipe::run_with(&rev, ps, false);
+        if v2.is_ok() != v.is_ok() {
+            return Outcome {
+                accepted: v.is_ok(),
+                rejects: vec![],
+                viol: Some(("verdict_depends_on_attribute_order".to_string(), format!("as written: {}; attributes reversed: {}\n{}", v.class(), v2.class(), rev.modules[0].1))),
+                k: case.k,
+                text: Some(input.modules[0].1.clone()),
+            };
+        }
+    }
     let lay = layout(&case.ty, ps as u64, &space.env, case.ty.vft.is_some());
     let model_ok = lay.rejects.is_empty();
     let mut viol = None;
